@@ -176,11 +176,15 @@ class IOOpsMixin:
         order = present.get("perm") or list(range(len(names)))
         for j in order:
             nm = names[j]
+            if st["keys"][j] in (present.get("drop_keys") or []):
+                continue
             if present.get("upper"):
                 nm = nm.upper()
             elif present.get("lower"):
                 nm = nm.lower()
             vals = [row[j] for row in st["values"]]
+            if st["keys"][j] in (present.get("perturb") or {}):
+                vals = [v + present["perturb"][st["keys"][j]] for v in vals]
             if present.get("int") and all(float(v) == int(v) for v in vals):
                 cols[nm] = numpy.array([int(v) for v in vals], dtype=numpy.int64)
             else:
@@ -198,11 +202,34 @@ class IOOpsMixin:
             df = df.iloc[rows].reset_index(drop=True)
         return df
 
+    @staticmethod
+    def _frame_equal(df, cols, inputs):
+        if [str(c) for c in df.columns] != cols:
+            return f"its columns are now {[str(c) for c in df.columns]}, were {cols}"
+        for c in df.columns:
+            a, b = df[c].to_numpy(), inputs[c]
+            if len(a) != len(b) or not numpy.array_equal(a.astype(float), b.astype(float)):
+                return f"column {c} changed (max shift {float(numpy.max(numpy.abs(a.astype(float) - b.astype(float)))) if len(a) == len(b) else 'length'})"
+        return None
+
     def op_fill_call(self, client, i, op):
         from cij.util.fill import fill_cij
         present = op.get("present", {})
-        df = self._static_frame(client, present)
+        self._frames = getattr(self, "_frames", {})
+        if op.get("use_frame"):
+            ent = self._frames.get((client, op["use_frame"]))
+            if ent is None:
+                raise LookupError("no-stored-output")
+            df, refused_before = ent
+            if not refused_before:
+                # the earlier call with the other system was accepted and legitimately wrote into the table: start from a fresh one
+                df = self._static_frame(client, present)
+            else:
+                self.probe("fill_frame_reused_after_refusal")
+        else:
+            df = self._static_frame(client, present)
         inputs = {c: df[c].to_numpy().copy() for c in df.columns}
+        cols0 = [str(c) for c in df.columns]
         target = op["target"]
         if isinstance(target, dict):
             p = os.path.join(self.root, target["relpath"])
@@ -215,11 +242,25 @@ class IOOpsMixin:
         except Warning as e:
             outcome = ("refused", type(e).__name__, str(e)[:40])
             self._fill_results[(client, i)] = outcome
+            if op.get("keep_frame"):
+                self._frames[(client, op["keep_frame"])] = (df, True)
+            if "O-env" in self.oracles:
+                diff = self._frame_equal(df, cols0, inputs)
+                if diff is not None:
+                    self.verdict("O-env", "C09", client, i, f"a refused fill modified the table it was given: {diff}")
+                else:
+                    self.probe("fill_refused_left_table_untouched")
+                if op.get("must_not_refuse"):
+                    self.verdict("O-env", "C09", client, i, f"fill refused ({str(e)[:60]}) although the flag that switches off the {op['must_not_refuse']} refusal was given")
+                elif op.get("must_refuse"):
+                    self.probe("fill_must_refuse_" + op["must_refuse"])
             self._fill_compare(client, i, op, outcome, inputs)
             raise
         except Exception as e:
             outcome = ("error", type(e).__name__, str(e)[:60])
             self._fill_results[(client, i)] = outcome
+            if op.get("keep_frame"):
+                self._frames[(client, op["keep_frame"])] = (df, True)
             if not self._injected_now():
                 self._fill_compare(client, i, op, outcome, inputs)
                 if op.get("expect_fail") and isinstance(e, (OSError, ValueError)):
@@ -227,6 +268,14 @@ class IOOpsMixin:
             raise
         if op.get("expect_fail") and "O-env" in self.oracles:
             self.verdict("O-env", "C09", client, i, "fill_cij accepted a relations path that does not exist and returned a result")
+        if op.get("keep_frame"):
+            self._frames[(client, op["keep_frame"])] = (df, False)
+        if op.get("must_refuse") and "O-env" in self.oracles:
+            what = ("omits every member of the relation class " + str(present.get("drop_keys"))) if op["must_refuse"] == "rank" else \
+                   ("contradicts a relation by " + str(present.get("perturb")) + " GPa")
+            self.verdict("O-env", "C09", client, i, f"fill accepted a table that {what} (system {op['target']}): it must refuse ({op['must_refuse']})")
+        if op.get("must_not_refuse"):
+            self.probe("fill_ignore_flag_" + op["must_not_refuse"])
         self._fill_results[(client, i)] = outcome
         self._fill_compare(client, i, op, outcome, inputs)
         cols = outcome[2]
@@ -237,7 +286,7 @@ class IOOpsMixin:
         if "O-env" not in self.oracles:
             return
         # accepted fills leave supplied values in place and pass non-modulus columns through
-        if outcome[0] == "ok":
+        if outcome[0] == "ok" and not (isinstance(op.get("flags"), dict) and op["flags"].get("ignore_residuals") and op.get("present", {}).get("perturb")):
             got = outcome[1]
             for c, v in inputs.items():
                 g = got.get(str(c).lower())
